@@ -42,6 +42,8 @@ def constructed(rng):
     yield E.AddExpression(V("x"), V("x"))
     for name in ("\u03b8", "\u03c0", "_t", "xy", "X1", "1", "\u00e9", "x'"):
         yield E.AddExpression(E.MultiplyExpression(C(2), V(name)), E.PowerExpression(V(name), C(2)))
+    yield E.AddExpression(E.MultiplyExpression(C(3), V()), C(1))
+    yield E.PowerExpression(V(None), C(2))
     yield E.AddExpression(E.NegateExpression(), C(1))
     yield E.MultiplyExpression(C(2), E.FactorialExpression(None, True))
     yield E.SgnExpression()
